@@ -29,7 +29,7 @@ PROPS = {
         "projection": "completion (result class, wall-clock bound, panic) of every request call; final lifecycle observables",
         "mismatch_is_input": True,
         "timeout": {"quick": 1500, "thorough": 6000},
-        "level_text": "Coq theorems on three mechanism models. Waiters.v: a call that has written its request always has its deadline step enabled and that step finishes it, whatever the peer did; a call waiting while the connection is recycled (waiter sweep) returns 'lost', never panics or hangs. Life.v (lifecycle of the repaired client: Close with its once, losses, the recovery loop's head / dial / auth steps, writes, goroutine exits): no interleaving of any length reaches a panic state (nil connection, double close of a channel) and a write on a closed or replaced connection is an immediate error. Recovery.v (C08): every attempt ends. PARTIAL: the numeric bound request+dial+auth timeouts is measured, not proved - the models have no clock; of the lock interactions only the one place where a lock holder waits for something other than a timer (Close vs another closer of the connection, Model/CloseLock.v, theorems in Properties/C14.v) is modelled; the rest (the repaired self-deadlock of closeByServer) is covered by scenario. Tie: peer scripts silence / drop after every byte k of the response / server close packet / garbage / refused dials / rejected RECONNECT / silent AUTH / concurrent Close, calls issued before, during and after the fault, TCP and WebSocket; every call under a watchdog and recover(); histories replayed by the Waiters and Life models. Also scripted: a caller deadline later than the request timeout, and a host that leaves connection attempts unanswered during the recovery (backlog-0 listener).",
+        "level_text": "Coq theorems on three mechanism models. Waiters.v: a call that has written its request always has its deadline step enabled and that step finishes it, whatever the peer did; a call waiting while the connection is recycled (waiter sweep) returns 'lost', never panics or hangs. Life.v (lifecycle of the repaired client: Close with its once, losses, the recovery loop's head / dial / auth steps, writes, goroutine exits): no interleaving of any length reaches a panic state (nil connection, double close of a channel) and a write on a closed or replaced connection is an immediate error. Recovery.v (C08): every attempt ends. PARTIAL: the numeric bound request+dial+auth timeouts is measured, not proved - the models have no clock; of the lock interactions only the one place where a lock holder waits for something other than a timer (Close vs another closer of the connection, Model/CloseLock.v, theorems in Properties/C14.v) is modelled; the rest (the repaired self-deadlock of closeByServer) is covered by scenario. Tie: peer scripts silence / drop after every byte k of the response / server close packet / garbage / refused dials / rejected RECONNECT / silent AUTH / concurrent Close, calls issued before, during and after the fault, TCP and WebSocket; every call under a watchdog and recover(); histories replayed by the Waiters and Life models. Also scripted: a caller deadline later than the request timeout, and a host that leaves connection attempts unanswered during the recovery (backlog-0 listener). Translator tie: Gen/Chans.v (every channel send/receive of the client package with its syntactic form, regenerated from the source on every run by vaccess): C06_call_wait_watches_its_context_in_source.",
         "level_note": "Trusted: kernel, extraction, harness (scripted peers, watchdog). Partial: wall-clock bound measured with 1.2 s scheduling slack; lock discipline not modelled.",
         "assumptions": ["Go select with a ready timer case eventually runs", "context deadlines fire"],
         "modelled": "client.Do/recv/deadline, waiter sweep on reconnectDial, Close/closeOnce, reconnecting loop phases, conn slot never nil after Dial",
@@ -50,7 +50,7 @@ PROPS = {
         "projection": "connection goroutines alive and sockets open at the peer after quiescence",
         "mismatch_is_input": True,
         "timeout": {"quick": 1500, "thorough": 6000},
-        "level_text": "Coq theorems on the lifecycle model (Model/Life.v) for every history of any length: at most one connection is open at any time (recovery closes the old one before it dials, Close closes them all); every goroutine of a closed connection has an exit step (reader, writer and dispatcher all watch closeCh); at quiescence the goroutines serving connections number exactly 3 x open connections, hence at most 3 whatever the number of cycles and 0 after Close. Tie: N = 5 (thorough: 20) cycles of dial+close, peer drop+recover, server close packet, failed dial on TCP and WebSocket; goroutine profile filtered to library frames and sockets still open at the peer are compared with the model run and with the constant bound.",
+        "level_text": "Coq theorems on the lifecycle model (Model/Life.v) for every history of any length: at most one connection is open at any time (recovery closes the old one before it dials, Close closes them all); every goroutine of a closed connection has an exit step (reader, writer and dispatcher all watch closeCh); at quiescence the goroutines serving connections number exactly 3 x open connections, hence at most 3 whatever the number of cycles and 0 after Close. Tie: N = 5 (thorough: 20) cycles of dial+close, peer drop+recover, server close packet, failed dial on TCP and WebSocket; goroutine profile filtered to library frames and sockets still open at the peer are compared with the model run and with the constant bound. Translator tie: Gen/Chans.v (every channel send/receive of the client package with its syntactic form, regenerated from the source on every run by vaccess): C16_conn_goroutines_wake_on_close_in_source (every receive of a dispatcher/writer is a select listing the close signal or a ticker, except the one drain receive per dispatcher).",
         "level_note": "Trusted: kernel, extraction, harness (goroutine profile parsing, EOF probing at the peer). Per-client goroutines (keepalive, recovery loop) are checked by scenario (0 left after Close), not in the model.",
         "assumptions": ["a goroutine whose select has a closed channel case exits", "net.Conn.Close releases the socket"],
         "modelled": "tcpConn/wsConn reading, writing, OnPacket goroutines and Close; client connection slot across recovery",
@@ -75,7 +75,7 @@ PROPS = {
         "projection": "per tick: heartbeat (request id, heartbeat id) or recycle; echo of the peer's heartbeat",
         "mismatch_is_input": True,
         "timeout": {"quick": 1500, "thorough": 6000},
-        "level_text": "Coq theorems on the keepalive loop (Model/Keepalive.v: check, ping, handlePong, handlePing echo, the reset by a successful recovery) with time supplied by the environment: every tick while connected, not recovering and not timed out sends one heartbeat whose request id is fresh and equals the heartbeat id of its body; the peer's heartbeat request is echoed (TCP); a peer that stopped answering is recycled at the first tick later than lastPong+timeout, i.e. within interval+timeout; and for timeout >= interval a peer that answers every heartbeat before the next tick is never recycled, from any state with no awaited heartbeat or a recent pong - including after any recovery. Timing hypotheses are explicit premises (healthy schedule). Tie: the real loop at 100 ms / 250 ms over TCP and WebSocket against always/never/stop-after-n/late/after-recovery peers; measured tick and pong times are replayed by the model tick by tick; latency bounds measured (direct oracle).",
+        "level_text": "Coq theorems on the keepalive loop (Model/Keepalive.v: check, ping, handlePong, handlePing echo, the reset by a successful recovery) with time supplied by the environment: every tick while connected, not recovering and not timed out sends one heartbeat whose request id is fresh and equals the heartbeat id of its body; the peer's heartbeat request is echoed (TCP); a peer that stopped answering is recycled at the first tick later than lastPong+timeout, i.e. within interval+timeout; and for timeout >= interval a peer that answers every heartbeat before the next tick is never recycled, from any state with no awaited heartbeat or a recent pong - including after any recovery. Timing hypotheses are explicit premises (healthy schedule). Tie: the real loop at 100 ms / 250 ms over TCP and WebSocket against always/never/stop-after-n/late/after-recovery peers; measured tick and pong times are replayed by the model tick by tick; latency bounds measured (direct oracle). C15_recovered_like_fresh: a recovery leaves the keepalive exactly where Dial leaves it (KRecovered refreshes the last-answer time; finding F27 repaired by 0c8c1ad, witness C15_old_rule_refuted). Scenarios added: a peer answering every heartbeat after 150 ms on the first connection and after a recovery; a keepalive verdict formed during a recovery and acted on after it (ka.after-check gate; finding F28 repaired by 54b0482).",
         "level_note": "Trusted: kernel, extraction, harness, ka.tick hook. Real time is measured, not proved: scheduling slack of 300 ms in the detection bound; a tick that coincides with a recovery in progress is outside the replayed scenarios.",
         "assumptions": ["time.Ticker ticks about every interval", "clock monotonic"],
         "modelled": "client.keepalive (check, ping), handlePong, handlePing, counter/heartbeat reset on recovery",
@@ -96,7 +96,7 @@ PROPS = {
         "mismatch_is_input": True,
         "vm_max_len": 300,
         "timeout": {"quick": 1500, "thorough": 6000},
-        "level_text": "Coq theorems on the write path (Model/WritePath.v: write(), the writer goroutine with its remainder buffer, the socket taking any number of bytes per write) for every interleaving of enqueues by any number of writers with writer steps: in every reachable state socket bytes ++ remainder ++ queued items = handshake ++ accepted frames in acceptance order (so the peer holds a prefix: never interleaved, torn, duplicated or lost; all of it once drained); the handshake stays first; an enqueue is a single step that always returns, accepted iff open and room, a full queue is an error that changes nothing; WebSocket: one binary message per accepted frame in order. Tie: real tcpConn/wsConn from the registered dialers against stalled, slow and normal peers, queue sizes 1..16, frames 1 B..1 MiB, gzip thresholds; sequential runs compared with the model, concurrent writers by direct oracle on the peer's stream. Plus: callers released together for the last free queue slot behind a writer stuck in a 12 MiB frame (every Write returns), and peer pings during 8 MiB WebSocket messages.",
+        "level_text": "Coq theorems on the write path (Model/WritePath.v: write(), the writer goroutine with its remainder buffer, the socket taking any number of bytes per write) for every interleaving of enqueues by any number of writers with writer steps: in every reachable state socket bytes ++ remainder ++ queued items = handshake ++ accepted frames in acceptance order (so the peer holds a prefix: never interleaved, torn, duplicated or lost; all of it once drained); the handshake stays first; an enqueue is a single step that always returns, accepted iff open and room, a full queue is an error that changes nothing; WebSocket: one binary message per accepted frame in order. Tie: real tcpConn/wsConn from the registered dialers against stalled, slow and normal peers, queue sizes 1..16, frames 1 B..1 MiB, gzip thresholds; sequential runs compared with the model, concurrent writers by direct oracle on the peer's stream. Plus: callers released together for the last free queue slot behind a writer stuck in a 12 MiB frame (every Write returns), and peer pings during 8 MiB WebSocket messages. Translator tie: Gen/Chans.v (every channel send/receive of the client package with its syntactic form, regenerated from the source on every run by vaccess): C12_enqueue_never_blocks_in_source - the only sends on a write queue are the two write functions and both are select-with-default, which is what makes the model's enqueue one total step.",
         "level_note": "Trusted: kernel, extraction, harness incl. the reference decoder at the peer. The frame bytes are Pack's (C02). Short socket writes are modelled although real sockets report an error with them.",
         "assumptions": ["Go channel = FIFO with non-blocking send", "net.Conn.Write writes the bytes it reports", "gorilla WriteMessage sends one message per call"],
         "modelled": "tcpConn.Write/write/writing, dialTCPConn handshake enqueue, wsConn.write/writing, the version query of dialWSConn",
@@ -105,7 +105,7 @@ PROPS = {
         "design_ref": "DESIGN.md section 6 (C13)",
         "projection": "handler invocation sequence, logged drops, dispatched count",
         "mismatch_is_input": True,
-        "level_text": "Coq theorems on the reader/dispatcher pair around the bounded receive queue (Model/Dispatch.v) for every interleaving of their steps, every queue size, every subscription table and every mix of frames: handler invocations = the taken frames in arrival order, each push once to every handler of its command in subscription order and to no other; at quiescence that is every accepted frame; accepted = received minus the logged drops, in order; a drop happens only when the queue is full; control commands never reach subscribers. Tie: scripted bursts over TCP and WebSocket with a blocking first handler so the queue overflows deterministically, queue sizes 1..16, compared with the model; delivery across drop+recovery checked by direct oracle. Plus: frames read before Dial has registered the packet callback (dial.before-onpacket gate) are still delivered; re-entrant handlers; text messages; two clients at once.",
+        "level_text": "Coq theorems on the reader/dispatcher pair around the bounded receive queue (Model/Dispatch.v) for every interleaving of their steps, every queue size, every subscription table and every mix of frames: handler invocations = the taken frames in arrival order, each push once to every handler of its command in subscription order and to no other; at quiescence that is every accepted frame; accepted = received minus the logged drops, in order; a drop happens only when the queue is full; control commands never reach subscribers. Tie: scripted bursts over TCP and WebSocket with a blocking first handler so the queue overflows deterministically, queue sizes 1..16, compared with the model; delivery across drop+recovery checked by direct oracle. Plus: frames read before Dial has registered the packet callback (dial.before-onpacket gate) are still delivered; re-entrant handlers; text messages; two clients at once. Translator tie: Gen/Chans.v (every channel send/receive of the client package with its syntactic form, regenerated from the source on every run by vaccess): C13_reader_never_blocks_in_source (addPacket is select-with-default). The dispatcher's lifecycle (registered late, connection closed, drain, exit) is part of Model/Dispatch.v: C13_late_registration_unobservable, C13_closed_before_registration_delivers_all, C13_gone_reported_once.",
         "level_note": "Trusted: kernel, extraction, harness. Per connection; the order between the old and the new connection's dispatcher across a reconnect is checked by scenario only.",
         "assumptions": ["Go channel = FIFO queue with non-blocking send failing when full", "handlers are registered before Dial (documented)"],
         "modelled": "tcpConn/wsConn.OnPacket dispatcher, addPacket, client.onPacket/handleControl/handlePush/Subscribe",
@@ -115,7 +115,7 @@ PROPS = {
         "projection": "each call's result; no-receiver / duplicate / unsupported log counts",
         "mismatch_is_input": True,
         "timeout": {"quick": 1500, "thorough": 6000},
-        "level_text": "Coq theorems on the waiter mechanism (Model/Waiters.v: Do/register/recv/handleResponse/onPacket routing/Packet.Err/reconnect sweep) for every action list, i.e. every interleaving of any number of calls with ARBITRARY dispatched packets (permuted, duplicated, late, unknown or stale ids, pushes, peer requests): a finished call holds only a packet with its own request id that was routed to waiters (or timeout / lost connection / write error); a finished call never changes; unsolicited and duplicate responses leave exactly one log line; status 0 is success, every other status the typed error with the body's code/message or the 500 fallback. Tie: scripted peer over TCP and WebSocket, v1/v2, k<=8 concurrent calls, scripted packet lists, all 256 statuses; the forced history is replayed by the model and compared per call. The returned packet is a response frame with status success carrying the call's id (C05_returned_packet_is_a_response); request or push frames with the AUTH / RECONNECT command are ignored.",
+        "level_text": "Coq theorems on the waiter mechanism (Model/Waiters.v: Do/register/recv/handleResponse/onPacket routing/Packet.Err/reconnect sweep) for every action list, i.e. every interleaving of any number of calls with ARBITRARY dispatched packets (permuted, duplicated, late, unknown or stale ids, pushes, peer requests): a finished call holds only a packet with its own request id that was routed to waiters (or timeout / lost connection / write error); a finished call never changes; unsolicited and duplicate responses leave exactly one log line; status 0 is success, every other status the typed error with the body's code/message or the 500 fallback. Tie: scripted peer over TCP and WebSocket, v1/v2, k<=8 concurrent calls, scripted packet lists, all 256 statuses; the forced history is replayed by the model and compared per call. The returned packet is a response frame with status success carrying the call's id (C05_returned_packet_is_a_response); request or push frames with the AUTH / RECONNECT command are ignored. Translator tie: Gen/Chans.v (every channel send/receive of the client package with its syntactic form, regenerated from the source on every run by vaccess): C05_dispatcher_never_blocked_by_a_waiter_in_source.",
         "level_note": "Trusted: kernel, extraction, harness incl. scripted peers and the reference codec; proto.Unmarshal of control.Error is an oracle (per-case table). Mechanism model: the rest of the client is an adversarial environment (more behaviours than the real one). Note: AUTH/RECONNECT-command packets of any type are routed to waiters by handleControl (modelled as written; returns_own_id still holds).",
         "assumptions": ["request ids of one connection context are distinct (C19) and fewer than 2^32 calls", "proto.Unmarshal(control.Error) as observed per case"],
         "modelled": "client.Do, register, recv, handleResponse, onPacket/handleControl routing, Packet.Err, the waiter sweep of reconnect()",
@@ -133,7 +133,7 @@ PROPS = {
         "design_ref": "DESIGN.md section 6 (C19)",
         "projection": "all",
         "mismatch_is_input": True,
-        "level_text": "Coq theorems over every history (= every schedule, each id draw being one atomic step) of any mix of constructors and option lists over any number of contexts: the request ids of a context are in issue order the successive draws from its counter, from a fresh context exactly 1..n (n < 2^32), pairwise distinct; request constructors stamp the fresh id after the caller's options (not overridable); response/push constructors draw nothing and keep the caller's id. Tie: constructor/option histories compared with the model; G x M goroutines must produce exactly {1..GM} (direct oracle).",
+        "level_text": "Coq theorems over every history (= every schedule, each id draw being one atomic step) of any mix of constructors and option lists over any number of contexts: the request ids of a context are in issue order the successive draws from its counter, from a fresh context exactly 1..n (n < 2^32), pairwise distinct; request constructors stamp the fresh id after the caller's options (not overridable); response/push constructors draw nothing and keep the caller's id. Tie: constructor/option histories compared with the model; G x M goroutines must produce exactly {1..GM} (direct oracle). Builds that fail after their id was drawn: C19_successful_ids_in_issue_order / _distinct; harness: failing builds in the histories (model op f) and between concurrent builds, a shared option slice with spare capacity (finding F26 repaired by d81a15f), 2^31+2 (thorough 2^32-1) successive ids of one context.",
         "level_note": "Trusted: kernel, extraction, harness. Assumes atomic.AddUint32 is atomic (sync/atomic contract): a concurrent execution is a linear history of draws.",
         "assumptions": ["atomic.AddUint32 is one indivisible read-modify-write", "uint32 wrap-around = mod 2^32"],
         "modelled": "go/context.go GetRequestIDGen, NewContext; go/packet.go NewPacket, NewRequest, MustNewRequest, NewResponse, MustNewResponse, NewPush, MustNewPush, WithVerify, WithRequestId, WithStatusCode",
@@ -215,7 +215,7 @@ PROPS = {
             "Go uint8 arithmetic is N modulo 256; | << >> & are N.lor/N.shiftl/N.shiftr/N.land",
             "the registry is read after the init functions of v1 and v2 ran (as in any program importing the client)",
         ],
-        "level_text": "All clauses are Coq theorems over the whole finite domain (both directions of the bijection are complete 2^16 sweeps inside the kernel plus the all-lengths gate and the version gate); the model is tied to the code by an exhaustive differential run of the same 2^16+2^16 inputs, all lengths 0..6/255/256/65536 and all 256 versions, so for this property the tie is complete rather than sampled.",
+        "level_text": "All clauses are Coq theorems over the whole finite domain (both directions of the bijection are complete 2^16 sweeps inside the kernel plus the all-lengths gate and the version gate); the model is tied to the code by an exhaustive differential run of the same 2^16+2^16 inputs, all lengths 0..6/255/256/65536 and all 256 versions, so for this property the tie is complete rather than sampled. For any registry (aliases through the exported Register): C18_any_registry_adopts/_rejects, C18_alias_adopts_its_number, C18_builtin_registry_is_the_swept_model; the harness registers aliases last and checks the adopted number.",
         "level_note": "Trusted: Coq kernel + vm_compute, the constant translator, extraction/ocamlopt, the Go harness printers. Assumes Go uint8 semantics = N mod 256.",
         "modelled": "go/protocol.go Handshake.Pack/Unpack, GetProtocol; go/context.go Context.Handshake (hand-written Gallina mirror; tie = exhaustive differential run)",
     },
